@@ -1,6 +1,142 @@
-//! ops family `multi` (stub — replaced when the family is implemented)
+//! ops family `multi` (C09): `MultiOps::{union, intersection, difference, symmetric_difference}` over owned
+//! values, references and `Result`s of either, driven through an iterator whose `size_hint` is chosen by
+//! the op line.
+//!
+//! `multi <op> <kind> <hint> bD item…`   op ∈ {or,and,sub,xor}; kind ∈ {own, ref, res_own, res_ref};
+//! hint ∈ {exact, upper:K, none}; item ∈ {bK, err:E}  ->  `ok` (result stored in bD) | `err:E`
 use super::*;
+use roaring::MultiOps;
 
-pub fn handle(_st: &mut State, _toks: &[&str]) -> HResult {
-    None
+#[derive(Clone, Copy)]
+enum Hint {
+    /// the `Vec`'s own iterator: `size_hint() = (len, Some(len))`
+    Exact,
+    /// `(0, Some(k))`
+    Upper(usize),
+    /// `(0, None)`
+    Unknown,
+}
+
+/// A fused pass-through over `vec::IntoIter` that only changes what `size_hint` answers.
+struct Hinted<T> {
+    inner: std::vec::IntoIter<T>,
+    hint: Hint,
+}
+
+impl<T> Iterator for Hinted<T> {
+    type Item = T;
+    fn next(&mut self) -> Option<T> {
+        self.inner.next()
+    }
+    fn size_hint(&self) -> (usize, Option<usize>) {
+        match self.hint {
+            Hint::Exact => self.inner.size_hint(),
+            Hint::Upper(k) => (0, Some(k)),
+            Hint::Unknown => (0, None),
+        }
+    }
+}
+
+fn parse_hint(t: &str) -> Option<Hint> {
+    if t == "exact" {
+        Some(Hint::Exact)
+    } else if t == "none" {
+        Some(Hint::Unknown)
+    } else if let Some(k) = t.strip_prefix("upper:") {
+        k.parse::<u32>().ok().map(|k| Hint::Upper(k as usize))
+    } else {
+        None
+    }
+}
+
+#[derive(Clone, Copy)]
+enum Op {
+    Or,
+    And,
+    Sub,
+    Xor,
+}
+
+fn apply<T, I: MultiOps<T>>(op: Op, it: I) -> I::Output {
+    match op {
+        Op::Or => it.union(),
+        Op::And => it.intersection(),
+        Op::Sub => it.difference(),
+        Op::Xor => it.symmetric_difference(),
+    }
+}
+
+/// `exact` really is the plain `Vec` (its `IntoIter` reports the length); the other hints go through the adapter.
+macro_rules! run {
+    ($op:expr, $hint:expr, $v:expr) => {
+        match $hint {
+            Hint::Exact => apply($op, $v),
+            h => apply($op, Hinted { inner: $v.into_iter(), hint: h }),
+        }
+    };
+}
+
+pub fn handle(st: &mut State, toks: &[&str]) -> HResult {
+    match toks {
+        ["multi", op, kind, hint, d, items @ ..] => {
+            let op = match *op {
+                "or" => Op::Or,
+                "and" => Op::And,
+                "sub" => Op::Sub,
+                "xor" => Op::Xor,
+                _ => return None,
+            };
+            let (owned, is_res) = match *kind {
+                "own" => (true, false),
+                "ref" => (false, false),
+                "res_own" => (true, true),
+                "res_ref" => (false, true),
+                _ => return None,
+            };
+            let hint = parse_hint(hint)?;
+            let di = slot('b', d)?;
+            // items: Ok(slot index) | Err(code)
+            let mut its: Vec<Result<usize, u32>> = Vec::with_capacity(items.len());
+            for t in items {
+                if let Some(e) = t.strip_prefix("err:") {
+                    if !is_res {
+                        return None;
+                    }
+                    its.push(Err(e.parse::<u32>().ok()?));
+                } else {
+                    let i = slot('b', t)?;
+                    st.bm[i].as_ref()?;
+                    its.push(Ok(i));
+                }
+            }
+            let bm = &st.bm;
+            let get = |i: usize| bm[i].as_ref().unwrap();
+            let r: Result<RoaringBitmap, u32> = match (owned, is_res) {
+                (true, false) => {
+                    let v: Vec<RoaringBitmap> = its.iter().map(|i| get(*i.as_ref().unwrap()).clone()).collect();
+                    Ok(run!(op, hint, v))
+                }
+                (false, false) => {
+                    let v: Vec<&RoaringBitmap> = its.iter().map(|i| get(*i.as_ref().unwrap())).collect();
+                    Ok(run!(op, hint, v))
+                }
+                (true, true) => {
+                    let v: Vec<Result<RoaringBitmap, u32>> = its.iter().map(|i| i.map(|i| get(i).clone())).collect();
+                    run!(op, hint, v)
+                }
+                (false, true) => {
+                    let v: Vec<Result<&RoaringBitmap, u32>> = its.iter().map(|i| i.map(get)).collect();
+                    run!(op, hint, v)
+                }
+            };
+            match r {
+                Ok(b) => {
+                    st.bm[di] = Some(b);
+                    Some("ok".to_string())
+                }
+                Err(e) => Some(format!("err:{}", e)),
+            }
+        }
+        _ => None,
+    }
 }
